@@ -318,12 +318,16 @@ def mu_reference_model(model: Model):
     """
     index = {Expr.symbol(eta): i for i, eta in enumerate(model.random_variables.etas.names, 1)}
     etas = set(index)
+    epsilons = {Expr.symbol(eps) for eps in model.random_variables.epsilons.names}
 
     offset = 0
 
     statements = model.statements
     for old_ind, assignment in _find_eta_assignments(model):
         # NOTE: The sequence of old_ind must be increasing
+        if not epsilons.isdisjoint(assignment.expression.free_symbols):
+            # NOTE: An eta on the residual error has no mu that is free of epsilons
+            continue
         eta = next(iter(etas.intersection(assignment.expression.free_symbols)))
         old_def = assignment.expression._sympy_()
         dep = old_def.as_independent(eta)[1]
